@@ -257,6 +257,14 @@ func (env *Env) elab(e Expr) (Val, error) {
 		r.T = ite(c, a.T, b.T)
 		return r, nil
 	case EUnary:
+		if x.Op == "&" {
+			// address of a local whose address is taken in the code (a heap cell in SSA)
+			id, ok := x.X.(EIdent)
+			if !ok || env.fx == nil {
+				return Val{}, fmt.Errorf("& needs the name of a local variable")
+			}
+			return env.fx.addrOfLocal(env, id.Name)
+		}
 		v, err := env.elab(x.X)
 		if err != nil {
 			return Val{}, err
